@@ -208,10 +208,13 @@ func (e *zzEnv) dataReq(source, key, sep, name, rename, prev string, data []byte
 	return r
 }
 
-var zzFrags = []string{"..", "../..", "../../..", "/abs/olute", "//double", "./dot", "..\\..\\win", "%2e%2e", "%252e%252e", "a//b", "", strings.Repeat("L", 300), "x.cmp", "x.part", "x.lck", "..%2f..", "....//", ".../...", "\x00nul"}
+var zzFrags = []string{"..", "../..", "../../..", "/abs/olute", "//double", "./dot", "..\\..\\win", "%2e%2e", "%252e%252e", "a//b", "", strings.Repeat("L", 300), "x.cmp", "x.part", "x.lck", "..%2f..", "....//", ".../...", "\x00nul",
+	// segments that only LOOK harmless as sent: white space around "..", which a later normalisation could strip
+	" ..", " ../..", "\t..", "\n../..", ".. ", " .. /.. ", "\u00a0.."}
 
 // allowed roots (relative to the sandbox) for an authorised source
 func (e *zzEnv) allowed(rel, source string) bool {
+	source = strings.Trim(source, " \t") // a header value reaches the server without surrounding blanks
 	mangled := strings.ReplaceAll(source, "/", "--")
 	if mangled == "" || mangled == "." || mangled == ".." {
 		mangled = "\x00no-such-dir"
